@@ -129,17 +129,25 @@ func (q *Queue) Add(elem *queue.Elem) (err error) {
 		if q.inflightDrained && q.current == nil {
 			return
 		}
+		// front is the oldest non-inflight message.
+		var front *list.Element
 		for e := q.current; e != nil; e = e.Next() {
-			pub := e.Value.(*queue.Elem).MessageWithID.(*queue.Publish)
+			// After Init, the inflight messages (publish or pubrel) stay behind q.current until ReadInflight has drained them.
+			pub, ok := e.Value.(*queue.Elem).MessageWithID.(*queue.Publish)
+			if !ok || pub.ID() != 0 {
+				continue
+			}
+			if front == nil {
+				front = e
+			}
 			// drop expired non-inflight message
-			if pub.ID() == 0 &&
-				queue.ElemExpiry(now, e.Value.(*queue.Elem)) {
+			if queue.ElemExpiry(now, e.Value.(*queue.Elem)) {
 				dropElem = e
 				dropErr = queue.ErrDropExpired
 				return
 			}
 			// drop qos0 message in the queue
-			if pub.ID() == 0 && pub.QoS == packets.Qos0 && dropElem == nil {
+			if pub.QoS == packets.Qos0 && dropElem == nil {
 				dropElem = e
 			}
 		}
@@ -149,13 +157,8 @@ func (q *Queue) Add(elem *queue.Elem) (err error) {
 		if elem.MessageWithID.(*queue.Publish).QoS == packets.Qos0 {
 			return
 		}
-
-		if q.inflightDrained {
-			// drop the front message
-			dropElem = q.current
-			return
-		}
-		// the messages in the queue are all inflight messages, drop the current elem
+		// drop the front message, or the current elem if the messages in the queue are all inflight messages.
+		dropElem = front
 		return
 	}
 	return nil
